@@ -159,6 +159,20 @@ def matrix_cells():
                 i2 = Index([c1], unique=True)
             elif history == 'detached':
                 i2 = t.delete_index(ix)
+            elif history in ('refused', 'refused-loose'):
+                # an index the table refused to take (a subject belongs to another table / to no table) is attached to nothing
+                oc = Column('o', 'int')
+                if history == 'refused':
+                    other = Table('other', schema='s1')
+                    other.add_column(oc)
+                    db.add(other)
+                i2 = Index([c1, oc], unique=True)
+                try:
+                    t.add_index(i2)
+                except Exception:  # noqa
+                    pass
+                else:
+                    t.delete_index(i2)
             else:
                 i2 = t.delete_index(0)
             out = [('index.sql', lambda: i2.sql, 'AttributeMissingError'), ('table.sql (control)', lambda: t.sql, None)]
@@ -176,7 +190,7 @@ def matrix_cells():
     for attr in ('name', 'schema'):
         for h in ('constructed', 'cleared', 'detached', 'cleared+used', 'detached+used'):
             yield f'enum.{attr}/{h}', enum_attr(attr, h)
-    for h in ('constructed', 'detached', 'detached-by-position', 'detached+used', 'detached-by-position+used'):
+    for h in ('constructed', 'detached', 'detached-by-position', 'detached+used', 'detached-by-position+used', 'refused', 'refused-loose', 'refused+used'):
         yield f'index.table/{h}', index_table(h)
 
     def control():
